@@ -64,3 +64,4 @@ Definition pack_be32 (n : Z) : list Z := [(n / 16777216) mod 256; (n / 65536) mo
 (* bytes.startswith and struct.unpack(">H", x)[0] (total: Python raises struct.error unless len x = 2) *)
 Definition py_startswith (l p : list Z) : bool := list_eqb (firstn (length p) l) p.
 Definition unpack_be16 (l : list Z) : Z := pyidx l 0 * 256 + pyidx l 1.
+Definition unpack_le32 (l : list Z) : Z := pyidx l 0 + 256 * pyidx l 1 + 65536 * pyidx l 2 + 16777216 * pyidx l 3.
